@@ -87,6 +87,8 @@ def window_bounds(zone, w):
         return e - 3600, e + 7200
     if k == "newyear":
         return ref.local_epoch(2023, 12, 15, zone), ref.local_epoch(2024, 1, 15, zone)
+    if k == "utc_year":  # the same instants in every zone (one UTC extraction window localised per meter)
+        return ref.local_epoch(w["y"], 1, 1, "UTC"), ref.local_epoch(w["y"] + 1, 1, 1, "UTC")
     raise ValueError(k)
 
 
@@ -132,6 +134,12 @@ def case_weights(case):
     key = {"part": "weights", "segment_type": st, "drop": drop}
     where = f"zone={zone} window={wname(case['window'])}"
     viol = []
+    if case.get("after"):
+        # history: the same instants were segmented in ANOTHER zone just before, in this process (nothing may carry over)
+        idx1, _ = make_index(case["after"], *window_bounds(case["after"], case["window"]))
+        segment_time_series(idx1, st, drop_zero_weight_segments=drop)
+        key["history"] = "other_zone_first"
+        where += f" after the same instants in {case['after']}"
     seg = segment_time_series(idx, st, drop_zero_weight_segments=drop)
     if not seg.index.equals(idx):
         viol.append({"clause": "weights_index", "key": key, "detail": f"{where}: returned index differs from the input index"})
@@ -750,6 +758,11 @@ def cases(tier):
                     out["weights"].append({"part": "weights", "zone": zone, "segment_type": st, "window": w, "drop": drop})
         for mode in ("years", "weeks"):
             out["how"].append({"part": "how", "zone": zone, "mode": mode})
+    # two-call histories: one UTC window localised to zone A, then to zone B (all ordered pairs)
+    for za, zb in itertools.permutations(ZONES, 2):
+        for st in SEGMENT_TYPES:
+            out["weights"].append({"part": "weights", "zone": zb, "segment_type": st, "window": {"w": "utc_year", "y": YEARS[0]},
+                                   "drop": False, "after": za})
     subsets = [list(c) for r in range(len(CANDIDATES) + 1) for c in itertools.combinations(CANDIDATES, r)]
     dens = [2] if tier == "quick" else [2, 10]
     for subset in subsets:
